@@ -503,6 +503,7 @@ func runC02(h *H) {
 			h.DoRisky("json.unmarshal", sub, set, strconv.Itoa(k+h.Intn(3)*4))
 		}
 	}
+	runC02Any(h) // c02any.go: whole documents into `var x any`
 }
 
 // nullAt replaces the k-th (mod count) scalar or string VALUE of the document (not a key) by null.
